@@ -57,6 +57,8 @@ class Val:
     row: object = None      # row index when this is a row-view of a 2-D array
     rev: bool = False
     cidx: object = None     # chunk index term when this is chunk `cidx` of a list of arrays
+    fn: object = None       # kind "comp" (the result of boolean-mask indexing a[m]): the elements are fn(r) for the rows r with mask(r), in row order
+    mask: object = None     # kind "comp": (mask array Val, mask reader r -> Bool term)
 
 
 @dataclass
@@ -307,6 +309,10 @@ class Engine:
             sv = st.env[e.value.id]
             if e.attr in sv.items: return sv.items[e.attr]
             raise Stale(f"attribute {s} is not part of the instantiation of {e.value.id!r}")
+        if isinstance(e.value, ast.Attribute) and isinstance(e.value.value, ast.Name) and e.value.value.id in st.env and st.env[e.value.value.id].kind == "struct":
+            inner = self.ev_Attribute(st, e.value)
+            if inner.kind == "struct" and e.attr in inner.items: return inner.items[e.attr]
+            raise Stale(f"attribute {s} is not part of the instantiation")
         if e.attr == "dtype":
             saved = self.in_spec; self.in_spec = True       # reading .dtype touches no element
             try: a = self.ev(st, e.value)
@@ -398,6 +404,14 @@ class Engine:
 
     def ev_Compare(self, st, e):
         left = self.ev(st, e.left); out = []
+        if left.kind == "arr" and left.ndim == 1 and left.elem == "int" and len(e.ops) == 1:
+            right = self.ev(st, e.comparators[0])
+            if right.kind == "int":
+                # NumPy element-wise comparison of an integer array with a scalar: a new boolean array of the same length
+                n = self.arr_len(st, left); t = self.fc("cmp", z3.ArraySort(I, B)); r_ = z3.Int(f"r?{next(self.fresh)}")
+                body = lambda r: self.cmp(type(e.ops[0]), Val("int", self.arr_read(st, left, r, e.lineno, check=False)), right, e.lineno)
+                st.pc.append(z3.ForAll([r_], z3.Implies(z3.And(r_ >= 0, r_ < n), z3.Select(t, r_) == body(r_)), patterns=[z3.Select(t, r_)]))
+                ref = st.heap.new("bool", "bool", (n,), t, "cmp"); return Val("arr", ref=ref, elem="bool", dtype="bool")
         for op, r in zip(e.ops, e.comparators):
             right = self.ev(st, r); out.append(self.cmp(type(op), left, right, e.lineno)); left = right
         return Val("bool", z3.And(*out) if len(out) > 1 else out[0])
@@ -469,6 +483,17 @@ class Engine:
                 return Val("arr", ref=base.ref, elem=base.elem, dtype=base.dtype, ndim=1, row=iz, vlen=n1)
             if isinstance(e.slice, ast.Slice): return self.slice_view(st, base, e.slice, e.lineno)
             i = self.ev(st, e.slice)
+            if i.kind == "arr" and i.elem == "bool" and i.ndim == 1 and base.ndim == 1:
+                # NumPy boolean-mask indexing a[m]: the elements a[r] of the rows with m[r], in row order - kept as (element function, mask), never materialised; lengths must agree
+                if not self.in_spec: self.emit(st, "shape", self.arr_len(st, i) == self.arr_len(st, base), e.lineno, "[boolean mask index]")
+                return Val("comp", elem=base.elem, dtype=base.dtype, vlen=self.arr_len(st, base), fn=(lambda r, b=base: self.arr_read(st, b, r, e.lineno, check=False)),
+                           mask=(i, (lambda r, m=i: self.arr_read(st, m, r, e.lineno, check=False))))
+            if i.kind == "comp" and i.elem == "int" and base.ndim == 1:
+                # p[k[m]]: integer-array indexing by a compressed array - element-wise on the same rows; every SELECTED position must be in range
+                n = self.arr_len(st, base); r_ = z3.Int(f"r?{next(self.fresh)}")
+                if not self.in_spec: self.emit(st, "bounds", z3.ForAll([r_], z3.Implies(z3.And(r_ >= 0, r_ < i.vlen, i.mask[1](r_)), z3.And(i.fn(r_) >= -n, i.fn(r_) < n))), e.lineno, "[gather by masked positions]")
+                return Val("comp", elem=base.elem, dtype=base.dtype, vlen=i.vlen, mask=i.mask,
+                           fn=(lambda r, b=base, f=i.fn, n=n: self.arr_read(st, b, z3.If(f(r) < 0, f(r) + n, f(r)), e.lineno, check=False)))
             if i.kind == "arr" and i.elem == "int" and i.ndim == 1 and base.ndim == 1:
                 # NumPy integer-array indexing: a NEW array with out[l] = a[idx[l]] (negative positions wrap); every position must be in range
                 n = self.arr_len(st, base); ni = self.arr_len(st, i); l_ = z3.Int(f"l?{next(self.fresh)}")
@@ -519,6 +544,7 @@ class Engine:
             if a.kind == "chunks": return Val("int", a.z)
             if a.kind == "struct" and "__len__" in a.items: return a.items["__len__"]
             if a.kind == "optlist": return Val("int", a.z)
+        if fname == "np.asarray" and len(args) == 1 and args[0].kind == "arr": return args[0]
         if fname == "is_null": return Val("bool", self.is_null(args[0]))
         if fname == "getattr" and len(args) == 2 and args[1].kind == "func": return args[1]      # getattr(ScalarFuncs, name): the name parameter is instantiated as the step function it names
         if fname == "np.isnan": return Val("bool", f_isnan(self.to_float(args[0])))
@@ -721,6 +747,16 @@ class Engine:
 
     def ex_Expr(self, st, s):
         if isinstance(s.value, ast.Constant): return [("normal", st, None)]
+        c = s.value
+        if isinstance(c, ast.Call) and isinstance(c.func, ast.Attribute) and c.func.attr == "append" and isinstance(c.func.value, ast.Name) and len(c.args) == 1 and not c.keywords:
+            lst = st.env.get(c.func.value.id); item = self.ev(st, c.args[0])
+            if lst is not None and lst.kind == "chunks" and item.kind == "arr" and item.elem == lst.elem and item.ndim == 1 and item.off is None and not item.rev:
+                # list.append(array): the list of arrays grows by one; entry n is the array as it is NOW (later stores into that array are not followed: refused by making it read-only here)
+                n = lst.z; ln0, ch0 = lst.items[0], lst.term; ilen = self.arr_len(st, item); iarr = st.heap.arr[item.ref] if item.ref is not None else item.term
+                ln1 = lambda c_, ln0=ln0, n=n, ilen=ilen: z3.If(c_ == n, ilen, ln0(c_)); ch1 = lambda c_, ch0=ch0, n=n, iarr=iarr: z3.If(c_ == n, iarr, ch0(c_))
+                st.env[c.func.value.id] = Val("chunks", z=n + 1, items=(ln1,), term=ch1, elem=lst.elem, dtype=lst.dtype)
+                if item.ref is not None: self.frozen.setdefault(item.ref, f"an array already appended to {c.func.value.id}")
+                return [("normal", st, None)]
         raise Unsupported("expression statement")
     def ex_Pass(self, st, s): return [("normal", st, None)]
 
@@ -818,7 +854,17 @@ class Engine:
                 return self.store_row(st, arr, self.ev(st, sl).z, val, line)
             if not isinstance(sl, ast.Tuple):
                 iv = self.ev(st, sl)
-                if iv.kind == "arr" and val.kind == "arr" and arr.ndim == 1 and arr.ref is not None and arr.off is None:
+                if iv.kind == "arr" and iv.elem == "bool" and val.kind == "comp" and arr.ndim == 1 and arr.ref is not None and arr.off is None:
+                    # a[m] = b[m']: defined here only when m and m' are the SAME mask array (then it is element-wise on the selected rows); anything else is refused
+                    if val.mask[0].ref is None or val.mask[0].ref != iv.ref: raise Unsupported("boolean-mask store from a value compressed by another mask")
+                    elem, dtype, ghost, label = st.heap.meta[arr.ref]
+                    if val.elem != elem: raise Unsupported(f"masked store of {val.elem} values into {elem} array {label}")
+                    na = self.arr_len(st, arr); self.emit(st, "shape", self.arr_len(st, iv) == na, line, f"[{label}[mask] = values[mask]]")
+                    if arr.ref in self.frozen: self.emit(st, "frame", z3.BoolVal(False), line, f"[{self.frozen[arr.ref]}]")
+                    old_ = st.heap.arr[arr.ref]; new_ = self.fc(label, old_.sort()); r_ = z3.Int(f"r?{next(self.fresh)}")
+                    st.pc.append(z3.ForAll([r_], z3.Implies(z3.And(r_ >= 0, r_ < na), z3.Select(new_, r_) == z3.If(val.mask[1](r_), val.fn(r_), z3.Select(old_, r_))), patterns=[z3.Select(new_, r_)]))
+                    st.heap.arr[arr.ref] = new_; return
+                if iv.kind == "arr" and iv.elem == "int" and val.kind == "arr" and arr.ndim == 1 and arr.ref is not None and arr.off is None:
                     return self.scatter_store(st, arr, iv, val, line)
             idxs = [self.ev(st, x).z for x in sl.elts] if isinstance(sl, ast.Tuple) else [self.ev(st, sl).z]
             self.store(st, arr, idxs, val, line)
@@ -1049,11 +1095,17 @@ class Engine:
         for nme in sorted(names):
             v = h.env.get(nme)
             if v is not None and v.kind in ("int", "float", "bool", "opaque"): h.env[nme] = Val(v.kind, self.fc(nme, sort_of(v.kind)))
+        for nm in lc.get("appended_lists", []):
+            v = h.env[nm]; u = next(self.fresh)
+            n_ = z3.Int(f"nchunks_{nm}!{u}"); ln_ = z3.Function(f"clen_{nm}!{u}", I, I); ch_ = z3.Function(f"chunk_{nm}!{u}", I, z3.ArraySort(I, sort_of(v.elem)))
+            c_ = z3.Int(f"c?{next(self.fresh)}"); h.pc.append(n_ >= 0); h.pc.append(z3.ForAll([c_], ln_(c_) >= 0, patterns=[ln_(c_)]))
+            h.env[nm] = Val("chunks", z=n_, items=(ln_,), term=ch_, elem=v.elem, dtype=v.dtype)
         inplace = {nm for nm in getattr(self, "_aug_names", set()) if nm in h.env and h.env[nm].kind == "arr" and h.env[nm].ref is not None}
         arrays = set(arrays) | inplace
         done_refs = set()
         for a in sorted(set(arrays) | set(lc.get("ghost_arrays", []))):
             v = h.env.get(a)
+            if v is None and a.isidentifier(): continue          # an array born inside the body in every iteration (np.full(...) there): nothing of it lives across iterations
             if v is None or v.kind != "arr" or v.ref is None: raise Unsupported(f"store to non-heap array {a}")
             if v.ref in done_refs: continue
             done_refs.add(v.ref)
